@@ -26,32 +26,32 @@ using queue_t = pub_t::queue;
 
 // read-only peeks at protected members through pointers to members (well-defined; nothing is modified)
 struct q_peek : queue_t {
-    using queue_t::_q;
-    using queue_t::_mx;
-    using queue_t::_regs;
+    using queue_t::VN_publisher_queue__q;
+    using queue_t::VN_publisher_queue__mx;
+    using queue_t::VN_publisher_queue__regs;
 };
 struct s_peek : sub_t {
-    using sub_t::_h;
-    using sub_t::_val;
+    using sub_t::VN_subscriber__h;
+    using sub_t::VN_subscriber__val;
 };
 
 static std::size_t q_len(queue_t &q) {
-    std::lock_guard g(q.*(&q_peek::_mx));
-    return (q.*(&q_peek::_q)).size();
+    std::lock_guard g(q.*(&q_peek::VN_publisher_queue__mx));
+    return (q.*(&q_peek::VN_publisher_queue__q)).size();
 }
 static bool q_parked(queue_t &q, std::size_t h) {
-    std::lock_guard g(q.*(&q_peek::_mx));
-    return (q.*(&q_peek::_regs))[h]._awt != nullptr;
+    std::lock_guard g(q.*(&q_peek::VN_publisher_queue__mx));
+    return (q.*(&q_peek::VN_publisher_queue__regs))[h].VN_publisher_queue_subreg_t__awt != nullptr;
 }
-static std::size_t s_handle(sub_t &s) { return s.*(&s_peek::_h); }
-static bool s_has_val(sub_t &s) { return (s.*(&s_peek::_val)).has_value(); }
+static std::size_t s_handle(sub_t &s) { return s.*(&s_peek::VN_subscriber__h); }
+static bool s_has_val(sub_t &s) { return (s.*(&s_peek::VN_subscriber__val)).has_value(); }
 
 enum phase_t { IDLE, FETCH, PARKED, BLOCKED, COPARKED, LOOPING, DONE, GONE };
 
 struct sub_ent;
 struct wake_awaiter : awaiter {
     sub_ent *owner = nullptr;
-    wake_awaiter() { set_resume_fn(&wake_awaiter::fn, nullptr); }
+    wake_awaiter() { VN_awaiter_set_resume_fn(&wake_awaiter::fn, nullptr); }
     static suspend_point<void> fn(awaiter *me, void *) noexcept;
 };
 
@@ -303,10 +303,10 @@ static void run_case(std::istream &in, std::size_t maxlen, std::size_t minlen) {
                 if (e.phase != BLOCKED && e.phase != COPARKED && e.phase != LOOPING) continue;
                 awaiter *a = nullptr;
                 {
-                    std::lock_guard g((*c.q).*(&q_peek::_mx));
-                    auto &reg = ((*c.q).*(&q_peek::_regs))[s_handle(*e.s)];
-                    a = reg._awt;
-                    reg._awt = nullptr;
+                    std::lock_guard g((*c.q).*(&q_peek::VN_publisher_queue__mx));
+                    auto &reg = ((*c.q).*(&q_peek::VN_publisher_queue__regs))[s_handle(*e.s)];
+                    a = reg.VN_publisher_queue_subreg_t__awt;
+                    reg.VN_publisher_queue_subreg_t__awt = nullptr;
                 }
                 if (a) a->resume();
             }
